@@ -625,7 +625,7 @@ fn gen_world_and_cmd(seed: u64) -> (CliWorld, Cmd) {
   let mut r = Rng::stream(seed, "world");
   let w = cli_world::gen_world(
     &mut r,
-    &GenOpts { max_files: 14, allow_special: true, with_tests: false, fix_heavy: false, order_sensitive_rules: false, hard_links: true, injections: true },
+    &GenOpts { max_files: 14, allow_special: true, with_tests: false, fix_heavy: false, order_sensitive_rules: false, hard_links: true, injections: true, lang_globs: false },
   );
   let cmd = gen_cmd(&mut r, &w);
   let mut w = w;
